@@ -76,7 +76,21 @@ type Ctx struct {
 }
 
 // At records progress (watchdog) and the case about to run.
-func (c *Ctx) At(i int64) { atomic.StoreInt64(c.at, i) }
+func (c *Ctx) At(i int64) { atomic.StoreInt64(c.at, i); atomic.AddInt64(&ticks, 1) }
+
+// Tick tells the watchdog that a long case is still making progress.
+func (c *Ctx) Tick() { atomic.AddInt64(&ticks, 1) }
+
+var ticks int64
+
+// maxReported bounds the number of violations that are written out, re-run and printed per run (all are counted).
+var maxReported = 4
+
+// Cap records that a cap (time budget, execution limit) was hit: the run is then reported as not exhaustive.
+func (c *Ctx) Cap(reason string) { c.Count("cap:"+reason, 1) }
+
+// FailCount returns the number of failures recorded by this worker so far.
+func (c *Ctx) FailCount() int { return len(*c.fails) }
 
 func (c *Ctx) Eval(n int64)       { c.cur.Evals += n }
 func (c *Ctx) Nontrivial(n int64) { c.cur.Nontrivial += n }
@@ -261,7 +275,7 @@ loop:
 		case <-done:
 			break loop
 		case <-tick.C:
-			a, p := atomic.LoadInt64(&at), atomic.LoadInt64(&progress)
+			a, p := atomic.LoadInt64(&at), atomic.LoadInt64(&progress)+atomic.LoadInt64(&ticks)
 			if a != lastAt || p != lastP {
 				lastAt, lastP, lastChange = a, p, time.Now()
 			} else if time.Since(lastChange) > ck.Horizon {
@@ -585,7 +599,7 @@ func (ck *Check) master(tier string, seed int64, evidence, replays, known string
 			continue
 		}
 		violations++
-		if reported[f.Domain+"|"+f.Key] || printed >= 10 {
+		if reported[f.Domain+"|"+f.Key] || printed >= maxReported {
 			continue
 		}
 		reported[f.Domain+"|"+f.Key] = true
@@ -644,6 +658,12 @@ func (ck *Check) master(tier string, seed int64, evidence, replays, known string
 		if m.NotExh != "" {
 			exhaustive = false
 			caps = append(caps, n+": "+m.NotExh)
+		}
+		for k, v := range m.Counters {
+			if strings.HasPrefix(k, "cap:") && v > 0 {
+				exhaustive = false
+				caps = append(caps, fmt.Sprintf("%s: %s (x%d)", n, k[4:], v))
+			}
 		}
 		distinctOutcomes += len(m.Outcomes)
 		for _, s := range m.Samples {
